@@ -9,7 +9,9 @@
 //
 //	relay.new                      start the real copyLoop(A, B) on two scripted conns
 //	feed <A|B> <hex>               the side produces data (appended to the conn's inbox)
-//	fin <A|B> <eof|err>            the side ends (after the data produced so far)
+//	fin <A|B> <eof|err[:kind]>     the side ends (after the data produced so far); kind picks the
+//	                               error VALUE: plain new optimeout opeintr opreset oppipe
+//	                               opdeadline deadline tempnet (also for `wr … err k kind`)
 //	rd <ab|ba> <n> [fin]           the parked Read of that copier completes (<= n bytes; with
 //	                               `fin` the final chunk is returned together with EOF/error)
 //	wr <ab|ba> <ok|short k|err k>  the parked Write of that copier completes
@@ -169,6 +171,59 @@ func verifErrClass(err error) string {
 	return "other(" + strings.ReplaceAll(err.Error(), " ", "_") + ")"
 }
 
+// verifTempErr is a net.Error that calls itself temporary and a timeout.
+type verifTempErr struct{ msg string }
+
+func (e *verifTempErr) Error() string   { return e.msg }
+func (e *verifTempErr) Timeout() bool   { return true }
+func (e *verifTempErr) Temporary() bool { return true }
+
+// verifMakeErr builds the error VALUE a failing scripted Read/Write returns.  The script picks
+// the kind; whatever it is, the operation failed and the class reported for copyLoop's return
+// value is `class` (remembered by identity: the value is handed out unwrapped, so that type
+// assertions in the code under test see the real thing).
+func (r *verifRelay) verifMakeErr(kind, op, conn, class string) error {
+	var err error
+	switch kind {
+	case "", "plain":
+		err = verifErr("verif: " + op + " error on " + conn)
+	case "new":
+		err = errors.New("verif: plain " + op + " error on " + conn)
+	case "optimeout":
+		err = &net.OpError{Op: op, Net: "tcp", Err: syscall.ETIMEDOUT}
+	case "opeintr":
+		err = &net.OpError{Op: op, Net: "tcp", Err: syscall.EINTR}
+	case "opreset":
+		err = &net.OpError{Op: op, Net: "tcp", Err: syscall.ECONNRESET}
+	case "oppipe":
+		err = &net.OpError{Op: op, Net: "tcp", Err: syscall.EPIPE}
+	case "opdeadline":
+		err = &net.OpError{Op: op, Net: "tcp", Err: os.ErrDeadlineExceeded}
+	case "deadline":
+		err = os.ErrDeadlineExceeded
+	case "tempnet":
+		err = &verifTempErr{msg: "verif: temporary " + op + " failure on " + conn}
+	default:
+		return nil
+	}
+	r.handed = append(r.handed, verifHanded{err, class})
+	return err
+}
+
+type verifHanded struct {
+	err   error
+	class string
+}
+
+func (r *verifRelay) errClass(err error) string {
+	for _, h := range r.handed {
+		if h.err == err {
+			return h.class
+		}
+	}
+	return verifErrClass(err)
+}
+
 type verifOp struct {
 	kind  string // rd | wr | cl
 	conn  *verifConn
@@ -187,6 +242,7 @@ type verifRelay struct {
 	abort   bool
 	ret     string
 	done    chan struct{}
+	handed  []verifHanded // error values handed out by failing operations
 }
 
 type verifConn struct {
@@ -194,6 +250,7 @@ type verifConn struct {
 	name   string
 	inbox  []byte
 	fin    string // "", eof, err
+	finErr error  // the value a Read returns once the side has ended
 	closed bool
 }
 
@@ -334,17 +391,11 @@ func (r *verifRelay) complete(d string, w []string) bool {
 			cls := "ok"
 			if withFin && len(c.inbox) == 0 && c.fin != "" {
 				cls = c.fin
-				op.err = io.EOF
-				if c.fin == "err" {
-					op.err = verifErr("verif: read error on " + c.name)
-				}
+				op.err = c.finErr
 			}
 			r.events = append(r.events, fmt.Sprintf("read:%s:%s:data:%s:%s", d, c.name, verifHex(op.buf[:n]), cls))
 		case c.fin != "":
-			op.n, op.err = 0, io.EOF
-			if c.fin == "err" {
-				op.err = verifErr("verif: read error on " + c.name)
-			}
+			op.n, op.err = 0, c.finErr
 			r.events = append(r.events, fmt.Sprintf("read:%s:%s:%s", d, c.name, c.fin))
 		default:
 			r.mu.Unlock()
@@ -372,7 +423,16 @@ func (r *verifRelay) complete(d string, w []string) bool {
 				if k > len(op.buf) {
 					k = len(op.buf)
 				}
-				op.n, op.err = k, verifErr("verif: write error on "+c.name)
+				kind := ""
+				if len(w) > 4 {
+					kind = w[4]
+				}
+				werr := r.verifMakeErr(kind, "write", c.name, "werr"+c.name)
+				if werr == nil {
+					r.mu.Unlock()
+					return false
+				}
+				op.n, op.err = k, werr
 			default:
 				r.mu.Unlock()
 				return false
@@ -418,7 +478,7 @@ func verifNewRelay() *verifRelay {
 	go func() {
 		err := copyLoop(a, b)
 		r.mu.Lock()
-		r.ret = verifErrClass(err)
+		r.ret = r.errClass(err)
 		r.events = append(r.events, "ret:"+r.ret)
 		r.mu.Unlock()
 		close(r.done)
@@ -719,8 +779,16 @@ func verifDriverMain() {
 						continue
 					}
 					c.inbox = append(c.inbox, b...)
-				} else if w[2] == "eof" || w[2] == "err" {
-					c.fin = w[2]
+				} else if w[2] == "eof" {
+					c.fin, c.finErr = "eof", io.EOF
+				} else if w[2] == "err" || strings.HasPrefix(w[2], "err:") {
+					e := r.verifMakeErr(strings.TrimPrefix(strings.TrimPrefix(w[2], "err"), ":"), "read", c.name, "rerr"+c.name)
+					if e == nil {
+						r.mu.Unlock()
+						reply("bad-op")
+						continue
+					}
+					c.fin, c.finErr = "err", e
 				} else {
 					r.mu.Unlock()
 					reply("bad-op")
